@@ -721,6 +721,16 @@ def trainer_sweeps(ctx, exe, nds, disp=None, corpus=()):
         key, what, ops = check_train_group(ctx, exe, ds, F, bias, C, eps, kern, cfgs, disp)
         ctx.count("corpus_train_cases")
         if key: report_train(ctx, exe, seen, key, what, ops)
+    # targeted: strong regularisation, sum-constrained formulations, linear kernel: examples sit on the face sum alpha = C and are released
+    # later; kernel solver vs dedicated linear solver must still agree (seeded change C16-mclinear-cs-kkt-on-simplex-face)
+    for _ in range(8 if ctx.quick else 40):
+        ds = gen_dataset(r, False)
+        if ds["k"] < 3: continue
+        C = r.choice(["0.05", "0.125", "0.02"])
+        for F in ("CS", "ATM", "ADM"):
+            key, what, ops = check_linear_vs_kernel(ctx, exe, ds, F, C, "1e-5")
+            ctx.count("linear_vs_kernel_small_C_runs")
+            if key: report_train(ctx, exe, seen, key, what, ops)
     for _ in range(nds):
         if len(seen) >= 3:
             ctx.log("trainer sweeps: three distinct violations already reported, stopping the sweep early")
@@ -728,7 +738,7 @@ def trainer_sweeps(ctx, exe, nds, disp=None, corpus=()):
         ds = gen_dataset(r, ctx.quick)
         n, k = ds["n"], ds["k"]
         kern = r.choice(["lin", "lin", "poly", "rbf"])
-        C = r.choice(["0.5", "1", "2", "4"])
+        C = r.choice(["0.5", "1", "2", "4", "0.125", "0.05"])      # incl. strong regularisation (examples sit at sum alpha = C)
         eps = r.choice(["1e-3", "1e-3", "1e-5"])
         forms = FORMS if not ctx.quick else [r.choice(FORMS) for _ in range(4)]
         ctx.hist("train_classes", k); ctx.hist("train_examples", n); ctx.hist("train_kernel", kern); ctx.hist("train_eps", eps)
